@@ -4,10 +4,10 @@ from vlib.core import Case, hx
 ID = "C05"
 N = 0xFFFFFFFFFFFFFFFFFFFFFFFFFFFFFFFEBAAEDCE6AF48A03BBFD25E8CD0364141
 RULE = ("op acct.sign <key> <digest> (in one process: try_sign twice, sign, another key signing the same digest, this key signing another digest, then sign/try_sign again — all results for (key, digest) must be equal and the other key's two results too): keys 1,2,n-2,n-1,random; digests 0,1,n-1,n,n+1,2^256-1,random; "
-        "a corpus of pairs whose signature has a short r or s (60 per quick run) or a zero byte at each interior position 1..31 of r and of s; non-trivial = distinct (key, digest); the run must contain both parities and both s halves (counted via extra check); "
+        "a corpus of pairs whose signature has a short r or s (60 per quick run) or a zero byte at each interior position 1..31 of r and of s, and of pairs whose s lies within 2^-8 .. 2^-24 of the half order (the low-s boundary); keys and digests of 32 bytes that look like text; non-trivial = distinct (key, digest); the run must contain both parities and both s halves (counted via extra check); "
         "judge = independent ECDSA verify + public-key recovery (Spec.Ecdsa), 1<=r<n, 1<=s<=n/2, and for digests below n equality with the RFC 6979 signature computed from Spec.Rfc6979")
 EXHAUSTIVE_SWEEPS = {"quick": ["5 boundary keys x 8 boundary digests"], "thorough": ["5 boundary keys x 8 boundary digests"]}
-ASSUMPTIONS = ["LawfulCurve (prime-order group laws) is a hypothesis of the verify/recover theorems; the concrete secp256k1 is only cross-tested"]
+ASSUMPTIONS = ["the general verify/recover theorems take LawfulCurve as a hypothesis; it is proved for the real secp256k1 group in Props/SecpInstance (secp_lawful), and the driver's fast arithmetic is cross-tested against the verified one (op secp.affine, C04)"]
 
 
 def gen(rng, tier):
@@ -39,6 +39,14 @@ def gen(rng, tier):
     inner = [c for c in corpus if c[2].startswith("zero-")]
     for k, d, rb, sb in (short if tier == "thorough" else rng.sample(short, 60)):
         cases.append(Case("acct.sign %s %s" % (k, d), tags=("short-scalar", "r:%s-bytes" % rb if rb != "32" else "s:%s-bytes" % sb)))
+    # ... and pairs whose s lies just below the half order n/2 (top 8..24 bits are 0 followed by ones): the low-s boundary —
+    # a second "normalisation" with a slightly wrong constant, or a comparison that is off at the boundary, flips exactly
+    # these (found once by harness/examples/corpus_half_order.rs, which signs with the code itself; inputs only)
+    nh = os.path.join(core.VERIF, "data", "c05_near_half_order.txt")
+    for l in open(nh):
+        if l.strip():
+            k, d, tag = l.split()
+            cases.append(Case("acct.sign %s %s" % (k, d), tags=("near-half-order", tag)))
     # ... and a zero byte at every interior position 1..31 of r and of s (word-wise or byte-wise re-assembly of the scalars)
     want = {("r", i) for i in range(1, 32)} | {("s", i) for i in range(1, 32)}
     rng.shuffle(inner)
